@@ -669,7 +669,7 @@ def _worker(arg):
 
     targets = ("x86_64", "riscv", "riscv:rvc") if riscv_available() else ("x86_64",)
     try:
-        fails = hyp_search(case_strategy(targets), prop, n, seed, stats, classify=classify)
+        fails = hyp_search(case_strategy(targets), prop, n, seed, stats, classify=classify, skip_first=1)
     finally:
         cleanup()
     return stats, fails
